@@ -366,6 +366,8 @@ macro_rules! dispatch {
         match $id {
             "C17" => $f::<props::c17::C17>($($arg),*),
             "C16" => $f::<props::c16::C16>($($arg),*),
+            "C16S" => $f::<props::c16s::C16S>($($arg),*),
+            "C17S" => $f::<props::c17s::C17S>($($arg),*),
             "C10" => $f::<props::c10::C10>($($arg),*),
             "C06" => $f::<props::c10::C06>($($arg),*),
             "C18" => $f::<props::c18::C18>($($arg),*),
